@@ -5,6 +5,6 @@ cd "$(dirname "$0")"
 . ./env.sh
 IDS="$@"; [ -z "$IDS" ] && IDS=$(ls mutants)
 J=${SELFTEST_JOBS:-4}
-run_one() { m=$1; id=$(basename $(dirname $m)); out=$(VERIF_WORKERS=4 ./mutate.sh $m $id quick 2>&1); if echo "$out" | grep -q "^VIOLATION property=$id"; then echo "CAUGHT  $m"; else echo "MISSED  $m :: $(echo "$out" | tail -2 | tr '\n' ' ')"; fi; }
+run_one() { m=$1; id=$(basename $(dirname $m)); out=$(VERIF_BUDGET_S=900 VERIF_WORKERS=4 ./mutate.sh $m $id quick 2>&1); if echo "$out" | grep -q "^VIOLATION property=$id"; then echo "CAUGHT  $m"; else echo "MISSED  $m :: $(echo "$out" | tail -2 | tr '\n' ' ')"; fi; }
 export -f run_one
 for id in $IDS; do ls mutants/$id/*.diff 2>/dev/null; done | xargs -P $J -I{} bash -c 'run_one {}'
